@@ -74,3 +74,160 @@ Example C19_jaccard_example : jaccard [(1,4);(8,9)] [(3,8)] = Ok (3, 9).
 Proof. vm_compute. reflexivity. Qed.
 Example C19_truncate_outside_guard_refuted : truncate_to_polya [(3,3);(4,5);(6,6)] 4 2 = Ok [(2,4)].
 Proof. vm_compute. reflexivity. Qed.
+
+(* ================= round 3: the sweeps, the segmentation and the isoform profiles, for ALL inputs ================= *)
+From IQ Require Import IntervalsProofs2 SplitProofs ProfileProofs.
+
+(* merge_ranges: for strictly increasing disjoint lists the result is the union as a strictly increasing disjoint list; no assert fires *)
+Theorem C19_merge_ranges_union : forall A B, sd A -> sd B -> (A <> [] \/ B <> []) ->
+  exists l, merge_ranges A B = Ok l /\ sd l /\ forall p, cover l p = true <-> cover A p = true \/ cover B p = true.
+Proof. exact merge_ranges_union. Qed.
+Print Assumptions C19_merge_ranges_union.
+(* the cover equation needs only well-formed intervals in start order (overlaps inside one list allowed) — the weakest hypothesis found:
+   without start order it is refuted below *)
+Theorem C19_merge_ranges_cover : forall A B, mono A -> mono B -> (A <> [] \/ B <> []) ->
+  exists l, merge_ranges A B = Ok l /\ forall p, cover l p = cover A p || cover B p.
+Proof. exact merge_ranges_cover. Qed.
+Print Assumptions C19_merge_ranges_cover.
+Theorem C19_merge_ranges_sorted_disjoint : forall A B l, sd A -> sd B -> merge_ranges A B = Ok l -> sd l.
+Proof. exact merge_ranges_sd. Qed.
+Print Assumptions C19_merge_ranges_sorted_disjoint.
+(* `assert included2[pos2] == 0 or included1[pos1] == 0` is unreachable for EVERY pair of lists; `assert len(union) != 0` fires only on ([], []) *)
+Theorem C19_merge_ranges_first_assert_unreachable : forall A B, mr_f (Datatypes.S (length A + length B)) A B false false [] <> None.
+Proof. exact merge_ranges_first_assert_unreachable. Qed.
+Print Assumptions C19_merge_ranges_first_assert_unreachable.
+Example C19_merge_ranges_example : sd [(1,4);(8,9);(20,30)] /\ sd [(3,8);(12,13)] /\
+  merge_ranges [(1,4);(8,9);(20,30)] [(3,8);(12,13)] = Ok [(1,9);(12,13);(20,30)].
+Proof. vm_compute. repeat split; discriminate. Qed.
+Example C19_merge_ranges_empty_refuted : merge_ranges [] [] = Raises AssertionError.
+Proof. reflexivity. Qed.
+Example C19_merge_ranges_unsorted_refuted :
+  merge_ranges [(5,8)] [(6,6);(3,5)] = Ok [(5,8)] /\ cover [(6,6);(3,5)] 3 = true /\ cover [(5,8)] 3 = false.
+Proof. exact merge_ranges_unsorted_refuted. Qed.
+
+(* split_exons (repaired code): for every list of well-formed exons with non-negative coordinates (any order, duplicates allowed) the
+   blocks are non-empty, strictly increasing and disjoint, cover exactly the union, and each lies inside or apart from every exon *)
+Theorem C19_split_exons_partition : forall exons, Forall (fun x => 0 <= fst x <= snd x) exons ->
+  exists blocks, split_exons exons = Some blocks /\ sd blocks /\ (forall p, cover blocks p = cover exons p) /\
+    (forall b x, In b blocks -> In x exons -> py_contains x b = true \/ py_overlaps x b = false).
+Proof. exact split_exons_partition. Qed.
+Print Assumptions C19_split_exons_partition.
+Example C19_split_exons_example : Forall (fun x => 0 <= fst x <= snd x) [(1,5);(3,8);(10,12);(6,8)] /\
+  split_exons [(1,5);(3,8);(10,12);(6,8)] = Some [(1,2);(3,5);(6,8);(10,12)].
+Proof. split; [repeat constructor; cbn; discriminate|vm_compute; reflexivity]. Qed.
+(* the code's "-1 = no border yet" needs non-negative coordinates; an inverted exon exhausts the ends (IndexError) *)
+Example C19_split_exons_negative_refuted : split_exons [(-1,5);(2,5)] = Some [(2,5)] /\ cover [(-1,5);(2,5)] 0 = true /\ cover [(2,5)] 0 = false.
+Proof. exact split_exons_negative_refuted. Qed.
+Example C19_split_exons_inverted_refuted : split_exons [(3,1)] = None.
+Proof. exact split_exons_inverted_refuted. Qed.
+
+(* set_profiles: the pointer walk marks exactly the matched features whenever the known features split, for each transcript feature in
+   turn, into skipped | matched run | rest (`aligned`); value 1 iff matched, else -1 / -2 by overlap with the transcript span *)
+Theorem C19_isoform_profile_aligned : forall cmp K F region, aligned cmp F K ->
+  isoform_profile cmp K F region = map (fun k => if existsb (fun f => cmp f k) F then 1 else if py_overlaps k region then -1 else -2) K.
+Proof. exact isoform_profile_aligned. Qed.
+Print Assumptions C19_isoform_profile_aligned.
+Theorem C19_isoform_profile_spec : forall cmp K F region, aligned cmp F K -> spec_isoform_profile cmp K F region (isoform_profile cmp K F region) = true.
+Proof. exact isoform_profile_spec. Qed.
+Print Assumptions C19_isoform_profile_spec.
+(* equality comparator (intron and exon profiles): duplicate-free known features, the transcript's features a sub-sequence of them *)
+Theorem C19_isoform_profile_eq_spec : forall K F region, NoDup K -> subseq F K ->
+  length (isoform_profile (fun f k => py_equal_ranges f k 0) K F region) = length K /\
+  forall j k, nth_error K j = Some k ->
+    exists v, nth_error (isoform_profile (fun f k => py_equal_ranges f k 0) K F region) j = Some v /\
+      (v = 1 <-> In k F) /\ (v = -2 <-> ~ In k F /\ py_overlaps k region = false) /\ (v = -1 <-> ~ In k F /\ py_overlaps k region = true).
+Proof. exact isoform_profile_eq_spec. Qed.
+Print Assumptions C19_isoform_profile_eq_spec.
+(* `contains` on split exons: disjoint sorted blocks, disjoint sorted transcript exons, each containing at least one block *)
+Theorem C19_isoform_profile_contains_spec : forall K F region, sd K -> sd F -> (forall f, In f F -> exists k, In k K /\ py_contains f k = true) ->
+  isoform_profile py_contains K F region =
+  map (fun k => if existsb (fun f => py_contains f k) F then 1 else if py_overlaps k region then -1 else -2) K.
+Proof. exact isoform_profile_contains_spec. Qed.
+Print Assumptions C19_isoform_profile_contains_spec.
+(* ... and that hypothesis is discharged by the partition theorem when the blocks are split_exons of the gene's exons *)
+Theorem C19_split_exon_profile_spec : forall exons blocks F region, Forall (fun x => 0 <= fst x <= snd x) exons ->
+  split_exons exons = Some blocks -> sd F -> (forall f, In f F -> In f exons) ->
+  isoform_profile py_contains blocks F region =
+  map (fun k => if existsb (fun f => py_contains f k) F then 1 else if py_overlaps k region then -1 else -2) blocks.
+Proof. exact split_exon_profile_spec. Qed.
+Print Assumptions C19_split_exon_profile_spec.
+Example C19_isoform_profile_eq_example : NoDup [(1,2);(3,4);(3,6);(8,9);(11,12)] /\ subseq [(3,4);(8,9)] [(1,2);(3,4);(3,6);(8,9);(11,12)] /\
+  isoform_profile (fun f k => py_equal_ranges f k 0) [(1,2);(3,4);(3,6);(8,9);(11,12)] [(3,4);(8,9)] (3,9) = [-2; 1; -1; 1; -2].
+Proof. split; [repeat (constructor; [cbn; intuition congruence|]); constructor|]. split; [apply ss_skip, ss_take, ss_skip, ss_take, ss_nil|vm_compute; reflexivity]. Qed.
+Example C19_isoform_profile_contains_example :
+  isoform_profile py_contains [(1,2);(3,5);(6,8);(10,12)] [(3,8);(10,12)] (3,12) = [-2; 1; 1; 1].
+Proof. vm_compute. reflexivity. Qed.
+(* a transcript feature missing from the known features makes the walk run off the end: the later feature (5,6) is not marked *)
+Example C19_isoform_profile_missing_feature_refuted :
+  isoform_profile (fun f k => py_equal_ranges f k 0) [(1,2);(5,6)] [(3,4);(5,6)] (3,6) = [-2; -1].
+Proof. vm_compute. reflexivity. Qed.
+
+(* non-overlapping (split-exon) read-profile constructor: the sweep equals the declarative characterisation of DESIGN Appendix B,
+   for all strictly increasing disjoint exon lists (no bound, no further hypothesis) *)
+From IQ Require Import NosProofs BinSearchProofs.
+Theorem C19_nos_char : forall cmp K R, sd K -> sd R ->
+  nos cmp (Datatypes.S (length K + length R)) K (map (fun _ => 0) K) 0 R (map (fun _ => 0) R) 0 [] [] =
+  Some (map (gval cmp false R 0) K, map (rval cmp false K 0) R).
+Proof. exact nos_char. Qed.
+Print Assumptions C19_nos_char.
+(* gene exon k is 1 iff some read exon overlapping it satisfies the comparator *)
+Theorem C19_nos_gene_present_iff : forall cmp R k, gval cmp false R 0 k = 1 <-> exists r, In r R /\ py_overlaps r k = true /\ cmp r k = true.
+Proof. exact gval_1_iff. Qed.
+Print Assumptions C19_nos_gene_present_iff.
+(* ... -1 iff it is not hit, no overlapping read exon reaches its end, and its end lies between two read exons; otherwise 0 *)
+Theorem C19_nos_gene_absent_iff : forall cmp R k, gval cmp false R 0 k = -1 <->
+  (forall r, In r R -> py_overlaps r k = true -> cmp r k = false) /\ (forall r, In r R -> py_overlaps r k = true -> snd r < snd k) /\
+  (exists r, In r R /\ snd k < fst r) /\ (exists r, In r R /\ fst r <= snd k).
+Proof. exact gval_m1_iff. Qed.
+Print Assumptions C19_nos_gene_absent_iff.
+Theorem C19_nos_gene_values : forall cmp R k, gval cmp false R 0 k = 1 \/ gval cmp false R 0 k = -1 \/ gval cmp false R 0 k = 0.
+Proof. exact gval_range. Qed.
+Print Assumptions C19_nos_gene_values.
+(* read side, with the strict tie rule *)
+Theorem C19_nos_read_present_iff : forall cmp K r, rval cmp false K 0 r = 1 <-> exists k, In k K /\ py_overlaps k r = true /\ cmp r k = true.
+Proof. exact rval_1_iff. Qed.
+Print Assumptions C19_nos_read_present_iff.
+Theorem C19_nos_read_absent_iff : forall cmp K r, rval cmp false K 0 r = -1 <->
+  (forall k, In k K -> py_overlaps k r = true -> cmp r k = false) /\ (forall k, In k K -> py_overlaps k r = true -> snd k <= snd r) /\
+  (exists k, In k K /\ snd r < fst k) /\ (exists k, In k K /\ fst k <= snd r).
+Proof. exact rval_m1_iff. Qed.
+Print Assumptions C19_nos_read_absent_iff.
+(* the whole constructor = that sweep, then -2 right of bin_search(K, polyA + delta) and left of bin_search_rev(K, polyT - delta); it never raises
+   on a non-empty exon list *)
+Theorem C19_nonoverlapping_profile_total : forall cmp delta K R polya polyt, sd K -> sd R -> K <> [] ->
+  exists res, nonoverlapping_profile cmp delta K R polya polyt = Ok res.
+Proof. exact nonoverlapping_profile_total. Qed.
+Print Assumptions C19_nonoverlapping_profile_total.
+Example C19_nos_example : sd [(1,4);(6,9);(12,15)] /\ sd [(3,7);(20,22)] /\
+  nonoverlapping_profile (fun r k => py_overlaps_at_least_when_overlap r k 2) 0 [(1,4);(6,9);(12,15)] [(3,7);(20,22)] (-1) (-1)
+  = Ok ([1; 1; -1], [1; 0], (0, 3)).
+Proof. vm_compute. repeat split; discriminate. Qed.
+
+(* binary searches: the fuel of the model always suffices and every index read lies inside the list (termination of the halving-step loops),
+   and the result is the specified index — needs only non-decreasing starts (resp. ends) *)
+Theorem C19_bin_search_total : forall l pos, smono l -> l <> [] ->
+  exists i, bin_search l pos = Ok (Some i) /\
+    let n := Z.of_nat (length l) in
+    if (pos <? fst (nthz l 0 (0,0))) || (pos >? snd (nthz l (n - 1) (0,0))) then i = -1
+    else 0 <= i < n /\ fst (nthz l i (0,0)) <= pos /\ (i = n - 1 \/ pos < fst (nthz l (i + 1) (0,0))).
+Proof. exact bin_search_total_mono. Qed.
+Print Assumptions C19_bin_search_total.
+Theorem C19_bin_search_rev_total : forall l pos, emono l -> l <> [] ->
+  exists i, bin_search_rev l pos = Ok (Some i) /\
+    let n := Z.of_nat (length l) in
+    if (pos <? fst (nthz l 0 (0,0))) || (pos >? snd (nthz l (n - 1) (0,0))) then i = -1
+    else 0 <= i < n /\ pos <= snd (nthz l i (0,0)) /\ (i = 0 \/ snd (nthz l (i - 1) (0,0)) < pos).
+Proof. exact bin_search_rev_total_mono. Qed.
+Print Assumptions C19_bin_search_rev_total.
+Theorem C19_bin_search_spec : forall l pos, sd l -> l <> [] -> exists i, bin_search l pos = Ok (Some i) /\ spec_bin_search l pos i = true.
+Proof. exact bin_search_spec. Qed.
+Print Assumptions C19_bin_search_spec.
+Theorem C19_bin_search_rev_spec : forall l pos, sd l -> l <> [] -> exists i, bin_search_rev l pos = Ok (Some i) /\ spec_bin_search_rev l pos i = true.
+Proof. exact bin_search_rev_spec. Qed.
+Print Assumptions C19_bin_search_rev_spec.
+Theorem C19_sd_monotone : forall l, sd l -> smono l /\ emono l.
+Proof. intros l H. split; [apply sd_smono|apply sd_emono]; exact H. Qed.
+Example C19_bin_search_example : bin_search [(1,3);(5,6);(9,12);(15,15);(20,22)] 10 = Ok (Some 2) /\ bin_search_rev [(1,3);(5,6);(9,12);(15,15);(20,22)] 13 = Ok (Some 3).
+Proof. exact bin_search_example. Qed.
+Example C19_bin_search_empty_refuted : bin_search [] 3 = Raises IndexError.
+Proof. reflexivity. Qed.
